@@ -458,6 +458,42 @@ def _target_names(t):
     return []
 
 
+def renorm(t):
+    """Re-normalise a normal form after a substitution (flatten / fold sums and products, orient comparisons)."""
+    if isinstance(t, MultiNF):
+        t = tuple(t)
+    if not isinstance(t, tuple) or not t:
+        return t
+    h = t[0]
+    if h in ('var', 'num', 'const', 'param', 'bound', 'ast', 'fstr', 'stmt'):
+        return t
+    if h == 'add' and len(t) == 2 and isinstance(t[1], tuple):
+        return mk_add([renorm(x) for x in t[1]])
+    if h == 'mul' and len(t) == 2 and isinstance(t[1], tuple):
+        return mk_mul([renorm(x) for x in t[1]])
+    if h == 'pow' and len(t) == 3:
+        return mk_pow(renorm(t[1]), renorm(t[2]))
+    if h == 'cmp' and len(t) == 4:
+        return mk_cmp(t[1], renorm(t[2]), renorm(t[3]))
+    if h == 'not' and len(t) == 2:
+        return negate(renorm(t[1]))
+    if h in ('and', 'or'):
+        return (h,) + tuple(sorted({_key(renorm(x)): renorm(x) for x in t[1:]}.values(), key=_key))
+    return tuple(renorm(x) if isinstance(x, tuple) else x for x in t)
+
+
+def expand_temps(t, defs, skip=(), depth=0):
+    """Replace ('var', name) by defs[name] (normal forms of single-definition temporaries), recursively, and
+    re-normalise: the reading of a statement with the code's own temporaries written out."""
+    def sub(x, d):
+        if isinstance(x, tuple) and x:
+            if len(x) == 2 and x[0] == 'var' and isinstance(x[1], str) and x[1] in defs and x[1] not in skip and d < 6:
+                return sub(defs[x[1]], d + 1)
+            return tuple(sub(y, d) if isinstance(y, tuple) else y for y in x)
+        return x
+    return renorm(sub(tuple(t) if isinstance(t, MultiNF) else t, depth))
+
+
 NODE_FN = {}          # id(expression node) -> rules.Fn of the function it belongs to (filled by rules.Fn)
 
 
@@ -503,6 +539,13 @@ def norm(expr, env=None, resolver=None, **kw):
             continue
         if isinstance(r, tuple) and r != plain and '#phi' not in repr(r) and r not in alts:
             alts.append(r)
+    try:
+        if env is None:
+            r = expand_temps(plain, fn.cdefs(**kw))
+            if r != plain and r not in alts:
+                alts.append(r)
+    except Exception:
+        pass
     return MultiNF(plain, alts) if alts else plain
 
 
@@ -667,6 +710,7 @@ class Metas(dict):
         dict.__init__(self, names if isinstance(names, dict) else {n: n for n in names})
         self.pdefs = pdefs or {}
         self.cdefs = cdefs or {}
+        self.ldefs = {}          # set per candidate statement: local -> nf of its unique reaching definition there
 
 
 def _unify(pat, term, binding, metas, depth=0):
@@ -696,9 +740,17 @@ def _unify(pat, term, binding, metas, depth=0):
     if isinstance(pat, tuple) and isinstance(term, tuple):
         if term and term[0] == 'var' and len(term) == 2 and not (pat and pat[0] == 'var') and depth < 6:
             cd = getattr(metas, 'cdefs', {}).get(term[1])
+            used_l = False
+            if cd is None:
+                # ... or one that has a single reaching definition at this statement
+                cd = getattr(metas, 'ldefs', {}).get(term[1])
+                used_l = cd is not None
             if cd is not None:
                 # the code has introduced a temporary for a documented sub-expression
                 for b in _unify(pat, cd, binding, metas, depth + 1):
+                    if used_l:
+                        b = dict(b)
+                        b['__ldefs__'] = b.get('__ldefs__', frozenset()) | {(getattr(metas, 'cur', None), term[1])}
                     yield b
                 return
         if len(pat) != len(term):
